@@ -109,6 +109,10 @@ partial def parseArg : List Char → Option (Arg × List Char)
   | 'Z' :: '-' :: cs => some (.cstr none, cs)
   | 'Z' :: cs => do let (b, r) ← hexField cs; some (.cstr (some b), r)
   | 'A' :: cs => do let (b, r) ← hexField cs; some (.carr b, r)
+  | 'S' :: '~' :: cs =>
+    -- a long std::string given by its length only (content irrelevant to sizes and events)
+    let (n, r) := takeNat cs
+    match r with | '.' :: r' => some (.str (List.replicate n 113), r') | _ => none
   | 'S' :: cs => do let (b, r) ← hexField cs; some (.str b, r)
   | 'Q' :: cs => do
     let nm := cs.takeWhile (· ≠ '(')
@@ -302,7 +306,7 @@ def obsGuard (ws : List String) : Option String := do
 
 /-! ### C11: predicted frontend events of a log call
 `case n alloc <name> reg=<0|1> ccap=<cache capacity> qcap=<queue capacity> qused=<bytes in use> qmax=<max> dyn=<0|1> a=… =>
- events=<ctx>,<cachegrow>,<queuegrow>,<temp>,<usercopy>,<format>`  (counts per kind) -/
+ events=<ctx>,<cachegrow>,<queuegrow>,<temp>,<usercopy>,<format>,<paircopy>`  (counts per kind) -/
 def countEv (l : List Event) (p : Event → Bool) : Nat := (l.filter p).length
 
 def obsAlloc (ws : List String) : Option (String × List Arg) := do
@@ -319,7 +323,8 @@ def obsAlloc (ws : List String) : Option (String × List Arg) := do
   let n4 := countEv ev (· == .tempString)
   let n5 := countEv ev (· == .userCopy)
   let n6 := countEv ev (· == .formatCall)
-  some (s!"events={n1},{n2},{n3},{n4},{n5},{n6} ccap={r.2.cache.cap} qcap={r.2.queue.cap}", args)
+  let n7 := countEv ev (· == .pairCopy)
+  some (s!"events={n1},{n2},{n3},{n4},{n5},{n6},{n7} ccap={r.2.cache.cap} qcap={r.2.queue.cap}", args)
 
 def run : IO UInt32 := do
   let stdin ← IO.getStdin
